@@ -25,6 +25,7 @@ RULE = ('EVERY cluster-assignment vector of length <= L over the id alphabet {0,
         'and the TemplateModel queries on generated datasets. non-trivial = distinct vectors with a gap '
         'in the ids, a single cluster, or an unsigned dtype.')
 RULE += " Added classes: -1 ('unclustered') ids in signed assignment vectors for the functions that accept them; sparse-template models with curated clusters for the model-level counts; per-cluster magnitudes up to 1e17 and NaN / inf members in grouped_mean (other clusters must be unaffected)."
+RULE += ' Assignment vectors also arrive read-only and as strided views; model queries take ids as NumPy scalars of rotating dtypes and are repeated after the caller overwrote the arrays it was given.'
 EXHAUSTIVE = {'quick': True, 'thorough': True}
 EXHAUSTIVE_SCOPE = {'quick': 'length <= 6 over 4 ids', 'thorough': 'length <= 8 over 4 ids, <= 6 over 5 ids'}
 FLOORS = {'quick': {'evaluations': 40000, 'distinct_nontrivial': 20000,
